@@ -653,6 +653,112 @@ def items_stream(run, drv):
                 run.oracle_ok("setitem-fields")
 
 
+def options_stream(run, drv):
+    """every combination of the class options through the three spellings (decorator, class keywords, `TensorClass[...]`),
+    with and without a field named like a tensordict attribute: resolved `_autocast / _frozen / _nocast / _shadow` or the error
+    class, against the model (`createDecorated`, `metaOpts`)."""
+    import itertools
+    reqs, pend = [], []
+
+    def flags(c):
+        return ["ok"] + [str(bool(getattr(c, a))).lower() for a in ("_autocast", "_frozen", "_nocast", "_shadow")]
+
+    def attempt(build):
+        try:
+            with warnings.catch_warnings():
+                warnings.simplefilter("ignore")
+                return flags(build())
+        except Exception as e:  # noqa: BLE001
+            return ["err", {"other": "attr"}.get(err_class(e), err_class(e))]
+    # decorator
+    for a, f, n, sh in itertools.product((False, True), repeat=4):
+        for fname in ("x", "keys", "data", "batch_dims"):
+            def build(a=a, f=f, n=n, sh=sh, fname=fname):
+                body = {"__annotations__": {fname: torch.Tensor, "q": str}, "__module__": __name__}
+                return tensorclass(type("_Opt", (), body), autocast=a, frozen=f, nocast=n, shadow=sh)
+            case = ["decorator", a, f, n, sh, fname]
+            run.case(("options",) + tuple(map(str, case)))
+            reqs.append(sx("c15.options", "decorator", a, f, n, sh, [fname, "q"]))
+            pend.append((case, attempt(build)))
+    # class keywords on TensorClass and on bases that carry options
+    bases = [("TensorClass", TensorClass, None), ("TensorClass[autocast]", TensorClass["autocast"], (True, False, False, False)),
+             ("TensorClass[nocast]", TensorClass["nocast"], (False, False, True, False)), ("TensorClass[frozen]", TensorClass["frozen"], (False, True, False, False)),
+             ("TensorClass[autocast,frozen]", TensorClass["autocast", "frozen"], (True, True, False, False))]
+    for bname, base, bflags in bases:
+        for ka, kn, kf in itertools.product((None, False, True), repeat=3):
+            for ks in (False, True):
+                def build(base=base, ka=ka, kn=kn, kf=kf, ks=ks):
+                    kw = {k: v for k, v in (("autocast", ka), ("nocast", kn), ("frozen", kf)) if v is not None}
+                    if ks:
+                        kw["shadow"] = True
+                    return type(base)("_OptS", (base,), {"__annotations__": {"x": torch.Tensor}, "__module__": __name__}, **kw)
+                case = ["keywords", bname, ka, kn, kf, ks]
+                run.case(("options",) + tuple(map(str, case)))
+                reqs.append(sx("c15.options", "meta", ka, kn, kf, ks, list(bflags) if bflags else None))
+                pend.append((case, attempt(build)))
+    # brackets
+    for items in [("autocast",), ("nocast",), ("frozen",), ("autocast", "frozen"), ("autocast", "nocast"), ("shadow",), ("nocast", "frozen")]:
+        def build(items=items):
+            b = TensorClass[items] if len(items) > 1 else TensorClass[items[0]]
+
+            class _OptB(b):
+                x: torch.Tensor
+            return _OptB
+        case = ["bracket"] + list(items)
+        run.case(("options",) + tuple(case))
+        # the bracket class itself is built with the items as keywords (base TensorClass), the subclass inherits
+        reqs.append(sx("c15.options", "meta", True if "autocast" in items else None, True if "nocast" in items else None,
+                       True if "frozen" in items else None, "shadow" in items, None))
+        pend.append((case, attempt(build)))
+    for (case, impl), ans in zip(pend, drv.ask_many(reqs)):
+        m = parse_sx(ans)
+        model = ["ok"] + [str(x).lower() for x in m[1:]] if m[0] == "ok" else ["err", m[1]]
+        run.corr("class options (decorator / keywords / brackets)", [str(c) for c in case], impl, model)
+
+
+def zero_d_setitem(run):
+    """indexed assignment on a tensorclass WITHOUT batch dims (`tc[None] = v`, `tc[True] = v`, `tc[...] = v`, `tc[()] = v`):
+    as the same assignment on the plain tensordict (the `None` / `True` shortcut of `_setitem`)"""
+    for cname in ("D1", "S1", "Nc", "T1"):
+        cls = Z.BEHAVIOUR_CLASSES[cname]
+        for iname, item in [("None", None), ("True", True), ("(None,)", (None,)), ("...", Ellipsis), ("()", ()), ("mask0d", torch.tensor(True))]:
+            for vname, mkv in [("int", lambda: -1), ("float", lambda: 0.5), ("tensor0d", lambda: torch.tensor(2.0)),
+                               ("same-class[1]", lambda: Z.make(cls, batch=(1,), seed=1)), ("same-class[]", lambda: Z.make(cls, batch=(), seed=1))]:
+                tc, ref = Z.make(cls, batch=()), Z.make(cls, batch=())._tensordict
+                v = mkv()
+                case = [cname, iname, vname]
+                run.case(("zero-d-setitem",) + tuple(case))
+
+                def call(o, val):
+                    try:
+                        with time_limit(10), warnings.catch_warnings():
+                            warnings.simplefilter("ignore")
+                            o[item] = val
+                        return "ok", None
+                    except TimeoutError:
+                        raise
+                    except Exception as e:  # noqa: BLE001
+                        return "err", e
+                st_td, e_td = call(ref, v._tensordict if is_tensorclass(v) else v)
+                st_tc, e_tc = call(tc, v)
+                if st_td != "ok":
+                    run.count("zero_d_setitem.td_raises", f"{iname}:{vname}:{err_class(e_td)}")
+                    if st_tc == "ok":
+                        run.count("zero_d_setitem.tc_accepts_more", f"{iname}:{vname}")
+                    continue
+                if st_tc != "ok":
+                    run.oracle_fail("zero-d-setitem", case, f"the tensordict performs tc[{iname}] = <{vname}>, the tensorclass raises {type(e_tc).__name__}: {str(e_tc)[:80]}",
+                                    fingerprint=f"zero-d-setitem:{iname}:{vname}:raises:{err_class(e_tc)}")
+                elif B.canon(tc._tensordict) != B.canon(ref):
+                    run.oracle_fail("zero-d-setitem", case, "the underlying tensordict differs from the plain tensordict after the same assignment", fingerprint=f"zero-d-setitem:{iname}:{vname}:content")
+                else:
+                    bad = B.fields_readable(tc)
+                    if bad:
+                        run.oracle_fail("zero-d-setitem", case, f"read paths disagree: {bad}", fingerprint=f"zero-d-setitem:{iname}:{vname}:fields")
+                    else:
+                        run.oracle_ok("zero-d-setitem")
+
+
 # --------------------------------------------------------------------------- update / tuple pieces
 def update_stream(run, drv):
     """`tc.update(src)` / `update_` for every kind of source (tensorclass / dict / tensordict; mentioning the optional
@@ -784,3 +890,254 @@ def tuple_pieces_stream(run):
                     run.oracle_fail("tuple-pieces", case, why, fingerprint=f"tuple-pieces:{case[1]}:{why[:50]}")
                 else:
                     run.oracle_ok("tuple-pieces")
+
+
+# --------------------------------------------------------------------------- tc.set(key, value, inplace=…) and tuple keys
+def _err_of(e):
+    if isinstance(e, RuntimeError) and "locked" in str(e).lower():
+        return "lock"
+    return err_class(e)
+
+
+def _copy_ok(tc, f, written, locked):
+    """does `TensorDict.set(f, written, inplace=True)` succeed on (a copy of) the underlying tensordict?  (tensordict
+    behaviour, handed to the model as `CopyOk`)"""
+    if f not in tc._tensordict.keys():
+        return True
+    ref = tc._tensordict.clone()
+    if locked:
+        ref.lock_()
+    try:
+        with warnings.catch_warnings():
+            warnings.simplefilter("ignore")
+            ref.set(f, written, inplace=True)
+        return True
+    except Exception:  # noqa: BLE001
+        return False
+
+
+def set_inplace_stream(run, drv):
+    """`tc.set(field, value, inplace=…)` on the typed-field grid: class options x annotation x value kind x what the field
+    holds x lock; compared with the model `setFieldI` (error class / where the value lands / what reads back)."""
+    classes = [("Tp", Tp, False, False), ("TpA", TpA, True, False), ("TpN", TpN, False, True), ("TpS", TpS, True, False)]
+    priors = [("none", lambda: None), ("tensor", lambda: torch.tensor(9.0)), ("nontensor", lambda: "prior")]
+    reqs, pend = [], []
+    for cname, cls, autocast, nocast in classes:
+        fields = sorted(cls.__expected_keys__)
+        for f, (hint, target) in HINTS.items():
+            for vname, vkind, mk in _values():
+                for pname, mkp in priors:
+                    for locked in (False, True):
+                        for inplace in (True, False) if not locked else (True,):
+                            v = mk()
+                            cast_ok = other_ok = True
+                            if autocast and hint in ("accepted", "collection") and vkind not in ("none", "dict"):
+                                try:
+                                    _expected_python("castAccepted", v, target)
+                                except TypeError:
+                                    cast_ok = False
+                                except Exception:  # noqa: BLE001
+                                    continue
+                            if autocast and hint == "othertype" and vkind not in ("none", "dict"):
+                                try:
+                                    target(v)
+                                except TypeError:
+                                    other_ok = False
+                                except Exception:  # noqa: BLE001
+                                    continue
+                            tc = cls(batch_size=[])
+                            try:
+                                pv = mkp()
+                                if pv is not None:
+                                    tc._tensordict.set(f, pv if isinstance(pv, torch.Tensor) else NonTensorData(pv))
+                                    tc._non_tensordict.pop(f, None)
+                            except Exception:  # noqa: BLE001
+                                continue
+                            # CopyOk: one flag per value `_set` may hand to `set_tensor`
+                            ck = []
+                            for sym in ("asTensor", "raw", "castAccepted", "fromDict", "castOther"):
+                                try:
+                                    w = _expected_python(sym, v, target) if sym != "raw" else v
+                                    if sym in ("raw", "castOther"):
+                                        w = NonTensorData(w)
+                                    ck.append(_copy_ok(tc, f, w, locked))
+                                except Exception:  # noqa: BLE001
+                                    ck.append(True)          # this value cannot be built: the model cannot reach that branch
+                            # the property: a tensor value is written as the plain tensordict writes it
+                            td_accepts = None
+                            if vkind == "tensor" and not (autocast and hint in ("othertype", "collection")):      # (those annotations convert the value)
+                                ref = tc._tensordict.clone()
+                                if locked:
+                                    ref.lock_()
+                                try:
+                                    with warnings.catch_warnings():
+                                        warnings.simplefilter("ignore")
+                                        ref.set(f, v, inplace=inplace)
+                                    td_accepts = True
+                                except Exception:  # noqa: BLE001
+                                    td_accepts = False
+                            if locked:
+                                tc.lock_()
+                            es = [[k, _entry_desc(tc._tensordict, k)] for k in tc._tensordict.keys()]
+                            nt = [[k, None if x is None else "v"] for k, x in tc._non_tensordict.items()]
+                            case = [cname, f, vname, pname, "locked" if locked else "unlocked", "inplace" if inplace else "replace"]
+                            try:
+                                with time_limit(10), warnings.catch_warnings():
+                                    warnings.simplefilter("ignore")
+                                    out = tc.set(f, v, inplace=inplace)
+                                if f in tc._tensordict.keys():
+                                    e = tc._tensordict.get(f)
+                                    loc = "nt" if isinstance(e, (NonTensorData, NonTensorStack)) else "leaf"
+                                elif f in tc._non_tensordict:
+                                    loc = "placeholder"
+                                else:
+                                    loc = "nowhere"
+                                impl = ["ok", loc, B.canon(getattr(tc, f))]
+                                if out is not tc:
+                                    impl = ["ok-but-returned", type(out).__name__]
+                            except TimeoutError:
+                                raise
+                            except Exception as e:  # noqa: BLE001
+                                impl = ["err", _err_of(e)]
+                            run.case(tuple(case), nontrivial=True)
+                            run.count("set_inplace.outcome", impl[0] if impl[0] != "ok" else impl[1])
+                            if td_accepts and impl[0] == "err" and impl[1] != "type":
+                                run.oracle_fail("set-inplace", case, f"TensorDict.set({f!r}, <{vname}>, inplace={inplace}) writes the tensor, the tensorclass raises ({impl[1]})",
+                                                fingerprint=f"set-inplace:{cname}:{f}:{vname}:{pname}:raises:{impl[1]}")
+                            reqs.append(sx("c15.setfieldi", fields, autocast, nocast, hint, inplace, ck, locked, es, nt, f,
+                                           None if vkind == "none" else vkind, cast_ok, other_ok))
+                            pend.append((case, impl, v, target, f, tc))
+    for (case, impl, v, target, f, tc), ans, rq in zip(pend, drv.ask_many(reqs), reqs):
+        m = parse_sx(ans)
+        if m == ["bad-op"]:
+            from common import Infra
+            raise Infra(f"driver rejected {rq}")
+        if m[0] == "err":
+            model = ["err", {"lock": "lock", "attr": "other", "type": "type", "runtime": "runtime", "value": "value"}.get(m[1], m[1])]
+        else:
+            state, read = m[1], m[2]
+            tdm = {k: e for k, e in state[0][1:]}
+            loc = "placeholder"
+            if f in tdm:
+                loc = "nt" if tdm[f][0] in ("nt", "stack") else "leaf"
+            sym = read[1]
+            try:
+                exp = None if sym == "none" else _expected_python(sym, v, target)
+                model = ["ok", loc, B.canon(exp)]
+            except Exception as e:  # noqa: BLE001
+                model = ["ok", loc, f"cannot-build-expected:{type(e).__name__}"]
+        if case[5] == "inplace" and impl[0] == "ok" and model[0] == "ok" and isinstance(impl[2], list) and isinstance(model[2], list) \
+                and impl[2][:1] == ["T"] and model[2][:1] == ["T"]:
+            # `dest.copy_(value)` keeps the dtype of the existing entry: values and shape are compared
+            impl = impl[:2] + [[impl[2][2], [float(x) for x in impl[2][3]]]]
+            model = model[:2] + [[model[2][2], [float(x) for x in model[2][3]]]]
+        run.corr("set_inplace(_set with inplace)", case, impl, model)
+        if impl[0] == "ok":
+            bad = B.fields_readable(tc)
+            if bad:
+                run.oracle_fail("set-inplace", case, f"after tc.set({f!r}, <{case[2]}>, inplace={case[5] == 'inplace'}): {bad}", fingerprint=f"set-inplace:{case[0]}:{f}:{case[2]}")
+            else:
+                run.oracle_ok("set-inplace")
+
+
+def set_tuple_stream(run, drv):
+    """`tc.set(tuple_key, value, inplace=…)`: 1-tuples and nested keys, locked or not, against the model `setTuple` and against
+    the same call on the plain tensordict (the property)."""
+    hints = {"x": "accepted", "n": "collection", "s": "othertype", "o": "any", "d": "othertype"}
+    keys = [("x",), ("n", "y"), ("n", "t"), ("s",), ("o",)]
+    values = [("tensor", "tensor", lambda k: torch.zeros(2, 3, 4) if k == ("x",) else torch.zeros(2, 3)), ("str", "other", lambda k: "new")]
+    reqs, pend = [], []
+    for cname in ("D1", "S1", "Ac", "Nc"):
+        cls = Z.BEHAVIOUR_CLASSES[cname]
+        autocast, nocast = cname == "Ac", cname == "Nc"
+        fields = sorted(cls.__expected_keys__)
+        for key in keys:
+            for vname, vkind, mk in values:
+                for locked in (False, True):
+                    for inplace in (False, True):
+                        tc, ref_tc = Z.make(cls), Z.make(cls)
+                        td = Z.make(cls)._tensordict
+                        v = mk(key)
+                        if locked:
+                            tc.lock_(), td.lock_(), ref_tc.lock_()
+                        f = key[0]
+                        # what the nested `set` does, and whether the store-back can copy in place (tensordict behaviour)
+                        nested_ok, nested_err = True, "ok"
+                        written = v
+                        if len(key) > 1:
+                            try:
+                                with warnings.catch_warnings():
+                                    warnings.simplefilter("ignore")
+                                    written = getattr(ref_tc, f).set(key[1:], v, inplace=inplace)
+                            except Exception as e:  # noqa: BLE001
+                                nested_ok, nested_err = False, {"other": "attr"}.get(_err_of(e), _err_of(e))
+                        cast_ok = True
+                        if autocast and hints[f] in ("accepted", "collection") and len(key) == 1 and vkind == "other":
+                            cast_ok = False          # a str cannot be cast to a tensor / collection annotation (TypeError)
+                        ok_t = _copy_ok(tc, f, written, locked) if nested_ok and not isinstance(written, str) else True
+                        try:
+                            ok_raw = _copy_ok(tc, f, NonTensorData(v if len(key) == 1 else "x"), locked)
+                        except Exception:  # noqa: BLE001
+                            ok_raw = True
+                        ck = [ok_t, ok_raw, ok_t, True, ok_raw]
+                        es = [[k, _entry_desc(tc._tensordict, k)] for k in tc._tensordict.keys()]
+                        nt = [[k, None if x is None else "v"] for k, x in tc._non_tensordict.items()]
+                        case = [cname, "/".join(key), vname, "locked" if locked else "unlocked", "inplace" if inplace else "replace"]
+
+                        def call(o):
+                            try:
+                                with time_limit(10), warnings.catch_warnings():
+                                    warnings.simplefilter("ignore")
+                                    o.set(key, v, inplace=inplace)
+                                return "ok", None
+                            except TimeoutError:
+                                raise
+                            except Exception as e:  # noqa: BLE001
+                                return "err", e
+                        st_tc, e_tc = call(tc)
+                        st_td, e_td = call(td)
+                        if st_tc == "ok":
+                            loc = "placeholder"
+                            if f in tc._tensordict.keys():
+                                e = tc._tensordict.get(f)
+                                loc = "nt" if isinstance(e, (NonTensorData, NonTensorStack)) else "leaf"
+                            impl = ["ok", loc, B.nt_sorted_desc(tc)]
+                        else:
+                            impl = ["err", _err_of(e_tc)]
+                        run.case(("set-tuple",) + tuple(case), nontrivial=st_td == "ok")
+                        kind = vkind if len(key) == 1 else "tensor"
+                        reqs.append(sx("c15.settuple", fields, autocast, nocast, hints[f], inplace, ck, locked, es, nt, list(key), kind, cast_ok, nested_err))
+                        pend.append((case, impl, f))
+                        # oracle: as the plain tensordict (non-tensor values in place: the tensorclass refuses by design, finding)
+                        site = "set-tuple"
+                        if st_td == "ok" and st_tc != "ok" and autocast and isinstance(e_tc, TypeError):
+                            run.count("set_tuple.typed_field_rejects", case[1])       # the annotation cannot take the value: typed fields, not a divergence
+                        elif st_td == "ok" and st_tc != "ok":
+                            run.oracle_fail(site, case, f"the tensordict performs the write, the tensorclass raises {type(e_tc).__name__}: {str(e_tc)[:90]}",
+                                            fingerprint=f"set-tuple:{case[1]}:{vname}:{case[3]}:{case[4]}:raises:{_err_of(e_tc)}")
+                        elif st_td == "ok" and not (autocast and hints[f] == "othertype") and B.canon(tc._tensordict) != B.canon(td):
+                            # (under autocast a `str` / `int` annotation converts the value: typed fields, compared by the model only)
+                            run.oracle_fail(site, case, "the underlying tensordict differs from the plain tensordict after the same call", fingerprint=f"set-tuple:{case[1]}:content")
+                        elif st_td == "ok":
+                            bad = B.fields_readable(tc)
+                            if bad:
+                                run.oracle_fail(site, case, f"read paths disagree: {bad}", fingerprint=f"set-tuple:{case[1]}:fields")
+                            else:
+                                run.oracle_ok(site)
+                        else:
+                            run.count("set_tuple.td_raises", _err_of(e_td))
+    for (case, impl, f), ans, rq in zip(pend, drv.ask_many(reqs), reqs):
+        m = parse_sx(ans)
+        if m == ["bad-op"]:
+            from common import Infra
+            raise Infra(f"driver rejected {rq}")
+        if m[0] == "err":
+            model = ["err", {"lock": "lock", "attr": "other", "type": "type", "runtime": "runtime", "value": "value"}.get(m[1], m[1])]
+        else:
+            state = m[1]
+            tdm = {k: e for k, e in state[0][1:]}
+            loc = "placeholder"
+            if f in tdm:
+                loc = "nt" if tdm[f][0] in ("nt", "stack") else "leaf"
+            model = ["ok", loc, sorted([[k, "none" if x == "none" else "v"] for k, x in state[1][1]])]
+        run.corr("set_tuple(_set with a tuple key)", case, impl, model)
